@@ -2,7 +2,9 @@
 CLAIMED = True
 
 CFG = dict(
-    rule="each case = a scripted source running under the REAL Start/CoreLoop (requests, blocks and every access to the processors go through the "
+    rule="(30% of the cases also send the RPC SourceControl.ConfigurePulseLengths before 8..30% of the requests: same / other valid / invalid lengths, "
+         "while inactive, while active and - the hot spot - while PAUSED followed by UNPAUSE and publication; the reported lengths are compared after every step) "
+         "each case = a scripted source running under the REAL Start/CoreLoop (requests, blocks and every access to the processors go through the "
          "loop's queue / block channel; in 25% of the cases the source ENDS BY ITSELF (error block) before 4..15% of the requests - also while writing "
          "is paused - and is started again through the real Start, with requests, redundant starts/ends in between; case 4 of every run is scripted) "
          "(real AnySource/PrepareRun, 1..4 channels, 4 record sizes, projectors on none/all/some channels, "
@@ -30,7 +32,7 @@ CFG = dict(
                   "record is not distinguished from no file (lazy creation is not part of the statement)",
                   "os/bufio/asyncbufio: a flush makes everything written so far visible on disk (queue overflow is C07's subject; cases publish at most ~100 records between flushes)"],
     assumptions=["of the I/O failures inside START only 'the run directory cannot be made' is in the histories (a base path below a regular file, 9% of the STARTs; base path 2 of the model's `blocked` list); file-creation failures after the directory exists are outside the quantifier",
-                 "one channel per pixel (channelsPerPixel = 1, the AnySource default); pixel coordinates in file headers are C05's subject; record lengths are not changed while writing",
+                 "one channel per pixel (channelsPerPixel = 1, the AnySource default); pixel coordinates in file headers are C05's subject; record lengths change only through the RPC SourceControl.ConfigurePulseLengths (refused while writing is active, paused or not: C06_lengths_fixed_while_active), so the model's publication does not compare record and file lengths",
                  "the map a request is judged against is the one the server holds when it arrives (a map error also unloads the map: observed, not modelled)",
                  "a channel is OFF-eligible iff it had projectors when the START was accepted (projectors loaded later do not open a file)"],
     timeout=dict(quick=900, thorough=3600),
@@ -63,6 +65,8 @@ THEOREMS = [
     ("DastardV.Props.C06", "DastardV.C06.C06_bad_map_refused"),
     ("DastardV.Props.C06", "DastardV.C06.C06_source_end_stops_writing"),
     ("DastardV.Props.C06", "DastardV.C06.C06_uncreatable_path_refused"),
+    ("DastardV.Props.C06", "DastardV.C06.C06_lengths_fixed_while_active"),
+    ("DastardV.Props.C06", "DastardV.C06.C06_length_change_refused_while_active"),
     ("DastardV.Lemmas.ComposeWriteControl", "DastardV.ComposeWC.writeControl_simulates"),
     ("DastardV.Lemmas.ComposeWriteControl", "DastardV.ComposeWC.stored_eq_published"),
     ("DastardV.Lemmas.ComposeWriteControl", "DastardV.ComposeWC.stored_eq_accepted"),
